@@ -4,6 +4,8 @@ CFG = dict(
     # harness-pl/ (tevec with the `polars` feature), both tiers (the key keeps its historical name) — see tools/propcfg/C07.py
     bins_thorough_pl=["c02pl"],
     imports=["Run.RunC02"],
+    src_tables=True,   # tools/gen_tables.py (+ tools/gen_tables_drv.py) + Proofs/SrcTablesDrv.v: the driver bodies are re-read from the Rust source on every run
+    src_tables_proofs=["Proofs/SrcTablesDrv.vo"],
     exhaustive=True,
     rule="exhaustive: every len 0..=7 (thorough 0..=12) x window 1..=len+3 x 10 driver entry points "
          "(rolling_apply, rolling_apply_idx, rolling2_apply, rolling2_apply_idx, rolling_custom, "
@@ -53,7 +55,7 @@ CFG = dict(
                "(k pulls run the callback on the first k windows, draining = the returned slice form). Nothing is partial. Not covered: "
                "a caller buffer whose length differs from the series, panicking callbacks. The model is tied to the code by an exhaustive "
                "small-scope differential run (recording callback, all entry points x backends x output paths, and the "
-               "degenerate two-series combinations with the identity of the failing check).",
+               "degenerate two-series combinations with the identity of the failing check). Second tie (translator): the bodies of the twelve `fn rolling*` of view.rs and the Vec / ndarray / Arc overrides are parsed from the Rust source on every run (tools/gen_tables_drv.py) and proved (Proofs/SrcTablesDrv.v, 23 axiom-free theorems, every window / series / pair of lengths) to denote exactly the guards (check2_default / check2_to / check2_custom, by assertion message), the call lists (args_iter, args_iter_idx, args_iter_idx2, slices_iter, calls_to, calls_to_idx, slices_to) and the backend routing of Model/Driver.v.",
     level_note="Trusted: Coq kernel; the hand-written model of view.rs/vec.rs/ndarray.rs driver bodies and of std's "
                "repeat_n/chain/zip/enumerate; the harness and comparator. Polars backend: exercised by c02pl (separate crate "
                "harness-pl/) in both tiers.",
